@@ -352,7 +352,7 @@ def gen() -> None:
     out.append("Definition charset_value_matches (normalize : str -> str) (value item : str) : result bool :=\n  "
                + tcs.body(_stmts(_method(C, "_value_matches")),
                           ["def _normalize(name: str) -> str:\n    try:\n        return codecs.lookup(name).name\n"
-                           "    except LookupError:\n        return name.lower()"]) + ".")
+                           "    except (LookupError, ValueError):\n        return name.lower()"]) + ".")
     for cls, names in [(L, {"_value_matches", "best_match"}), (C, {"_value_matches"})]:
         extra = {n.name for n in cls.body if isinstance(n, ast.FunctionDef)} - names
         if extra:
@@ -407,7 +407,7 @@ WEIRD_ITEMS = ["", "*", "**", "*/*", "*/html", "text/", "/html", "/", "text/html
                "text/html;", "text/html ; level=1", "text/html;level=1;level=2", "*/*;x=1", "text/*;x=1", "a/b;c", "-x", "_",
                "*-foo", "en-", "en--US", "en-*", "*/*/*", "a;b", "a ;b", "TEXT/HTML", "text/html; Level=1", "x/y; a=1; b=2",
                "x/y; b=2; a=1", "x/y;a=1;b=2", " text/html", "text /html", "a\x1c;\x1cb", "utf-8 ", " utf-8", "en_",
-               "text/html;level", ";", "; level=1", "a/b　;　c=d"]
+               "text/html;level", ";", "; level=1", "a\x00b", "utf-8\x00", "a/b　;　c=d"]
 HDR_ATOMS = [",", ",", ";", ";", "=", '"', "\\", "*", "/", "-", "_", "q", "Q", "q=", ";q=", "0", ".", "1", "5", "a", "b", "en",
              "US", " ", " ", "\t", "%22", "*0", "*1", "text", "html", "level", "utf-8", " ", "\x0b", "\x1f", " ",
              "'", "+", "x", "0.5", "1.000", "-1", "=\"", "\";", "\\\"", "\\\\", "é", "٠"]
@@ -560,8 +560,8 @@ def _codec_table(names):
     for n in names:
         try:
             tbl[n] = codecs.lookup(n).name
-        except LookupError:
-            pass
+        except (LookupError, ValueError):
+            pass          # _normalize falls back to name.lower() (ValueError: a name with NUL)
         except Exception:  # noqa: BLE001
             return None
     return tbl
@@ -671,7 +671,7 @@ def _spec_match(fam: str, rng_key, offer: str) -> bool:
     def norm(n):
         try:
             return codecs.lookup(n).name
-        except LookupError:
+        except (LookupError, ValueError):
             return n.lower()
     return norm(rng_key) == norm(offer)
 
